@@ -212,9 +212,12 @@ class Projector:
         if full_keys:
             st['pk'] = 1
             keys = []
-            for dotted in dawgie.db._prime_keys():  # pylint: disable=protected-access
-                parts = dotted.split('.')
-                keys.append({'run': int(parts[0]), 'tgt': parts[1], 'task': parts[2], 'a': parts[3], 's': parts[4], 'v': '.'.join(parts[5:])})
+            try:
+                for dotted in dawgie.db._prime_keys():  # pylint: disable=protected-access
+                    parts = dotted.split('.')
+                    keys.append({'run': int(parts[0]), 'tgt': parts[1], 'task': parts[2], 'a': parts[3], 's': parts[4], 'v': '.'.join(parts[5:])})
+            except Exception as ex:  # the code cannot resolve its own keys: logged as an unresolvable name  # pylint: disable=broad-except
+                keys = [{'run': -1, 'tgt': '!', 'task': type(ex).__name__, 'a': '!', 's': '!', 'v': '!'}]
             st['pkeys'] = keys
         else:
             st['pk'] = 0
@@ -370,9 +373,10 @@ def sweep_events(done, cur):
             runs.add(a['run'])
     runs = sorted(runs) + [max(runs) + 1] if runs else []
     loads = [(i, r) for i in idents for r in runs]
-    if len(loads) > 12:
-        step = len(loads) / 12.0
-        loads = [loads[int(k * step)] for k in range(12)]
+    cap = 12 if len(done) > 6 else 6
+    if len(loads) > cap:
+        step = len(loads) / float(cap)
+        loads = [loads[int(k * step)] for k in range(cap)]
     now = dict(cur)
     for (tgt, task, a, s, v, av, sv, vv), r in loads:
         for lvl, want in (('alg', av), ('sv', sv), ('val', vv)):
